@@ -1,6 +1,6 @@
 //! Drop-in replacements for `std::sync::atomic` types. Every operation is a scheduling point.
 pub use std::sync::atomic::Ordering;
-use crate::exec::{after_load, after_write, new_loc, on_fence, point, Kind};
+use crate::exec::{after_load, after_write, new_loc, on_fence, point, weak_cas_fails_spuriously, Kind};
 
 pub fn fence(order: Ordering) {
     on_fence(order);
@@ -61,9 +61,21 @@ macro_rules! shim_int {
                 }
                 r
             }
-            /// modelled as the strong version (no spurious failure)
+            /// the first would-succeed attempt of each thread at this location fails spuriously (see
+            /// `weak_cas_fails_spuriously`), later ones behave like the strong version
             pub fn compare_exchange_weak(&self, cur: $t, new: $t, s: Ordering, f: Ordering) -> Result<$t, $t> {
-                self.compare_exchange(cur, new, s, f)
+                point();
+                let seen = self.v.load(Ordering::SeqCst);
+                if seen == cur && weak_cas_fails_spuriously(self.id) {
+                    after_load(self.id, seen as u64, fail_order_ok(f), Kind::CasFail);
+                    return Err(seen);
+                }
+                let r = self.v.compare_exchange(cur, new, Ordering::SeqCst, Ordering::SeqCst);
+                match r {
+                    Ok(old) => after_write(self.id, old as u64, new as u64, s, true),
+                    Err(v) => after_load(self.id, v as u64, fail_order_ok(f), Kind::CasFail),
+                }
+                r
             }
             pub fn fetch_update<F: FnMut($t) -> Option<$t>>(&self, set: Ordering, fetch: Ordering, mut f: F) -> Result<$t, $t> {
                 let mut prev = self.load(fetch);
